@@ -40,6 +40,10 @@ type Unit struct {
 	PassesYAML string `json:"passes_yaml,omitempty"`
 	// VeneersYAML: file name -> content, applied as builder transformations.
 	VeneersYAML map[string]string `json:"veneers_yaml,omitempty"`
+	// ExtraPkgs names the packages, besides gschema.Pkg, that the unit's inputs define (a unit whose
+	// InputYAML lists several inputs): PrepareGo links them into the driver too, under the registry
+	// prefix "<unit id>/<package>".
+	ExtraPkgs []string `json:"extra_pkgs,omitempty"`
 
 	Types, Builders, Converters, APIRef bool
 	Go                                  *GoOpts `json:"go,omitempty"`
